@@ -41,7 +41,7 @@ class C13(Prop):
                   'only as far as the correspondence cases show; resource names come from a fake ProductVersions (names are opaque in the '
                   'model); `create` itself (which resources a config gets) is exercised through the real code only; TerraAzure configs are '
                   'not covered.')
-    budget = {'quick': 3000, 'thorough': 60000}
+    budget = {'quick': 6000, 'thorough': 100000}
     search_budget = {'quick': 4000, 'thorough': 60000}
     rule = ('case = (cloud, machine type from the generated table, preemptible, local-ssd or external data disk with size, boot disk size, '
             'job_private, location, regional products present or hidden (fallback names), legacy dict form, packing); packing = recursive '
@@ -174,8 +174,8 @@ class C13(Prop):
 
     def _render(self, d):
         b = lambda x: '1' if x else '0'
-        head = ' '.join([d['cloud'], str(d['version']), d['machine_type'], b(d['preemptible']), b(d['local_ssd_data_disk']),
-                         str(d['data_disk_size_gb']), str(d['boot_disk_size_gb']), b(d['job_private'])])
+        # only what billing reads: cloud, version, machine type (cores, memory), job_private (the power-of-two assert), resources
+        head = ' '.join([d['cloud'], str(d['version']), d['machine_type'], b(d['job_private'])])
         if d.get('resources') is None:
             return head + ' ~'
         parts = [head]
